@@ -323,6 +323,16 @@ def _vdep_run(self):
 VDep = labtech.task(type('VDep', (), {'__annotations__': {'x': Any}, 'run': _vdep_run, '__module__': __name__, '__qualname__': 'VDep'}))
 NestA_V2 = _nested_type('NestA')
 NestB_V2 = _nested_type('NestB')
+V0 = make_vtype('V0', [])                        # no parameters at all
+
+
+def _make_inheriting():
+    # a task type that inherits the parameters of another task type and adds one of its own
+    cls = type('VInh', (V1,), {'__annotations__': {'c': Any}, 'run': _vrun, '__module__': __name__, '__qualname__': 'VInh'})
+    return labtech.task(cls)
+
+
+VInh = _make_inheriting()
 VALUE_TYPES = {'V1': V1, 'V2': V2, 'V': V, 'VV': VV, 'VJ': VJ, 'VN': VN, 'VPost': VPost}
 ENUMS = {'Color': Color, 'Shade': Shade}
 
